@@ -67,8 +67,38 @@ func mutants(src string) []string {
 	out = append(out, strings.ReplaceAll(strings.ReplaceAll(src, " int ", " intt "), " string ", " strng "))
 	// references to outputs that do not exist
 	out = append(out, strings.ReplaceAll(src, ".o0", ".nope0"))
+	// every call carries all three modifiers in both spellings (conflicting
+	// modifiers on stage calls, unsupported tags on pipeline calls)
+	{
+		t := callRe.ReplaceAllString(src, "${1}call local preflight volatile ")
+		t = strings.ReplaceAll(t, "    )\n\n", "    ) using (\n        local = true,\n        preflight = true,\n        volatile = true,\n    )\n\n")
+		out = append(out, t)
+	}
+	// duplicate parameter and field names
+	out = append(out, strings.ReplaceAll(strings.ReplaceAll(src, " i1,", " i0,"), " f1,", " f0,"))
+	// every binding of the first parameter is missing
+	{
+		var keep []string
+		for _, l := range strings.Split(src, "\n") {
+			if strings.HasPrefix(strings.TrimSpace(l), "i0 = ") && strings.HasSuffix(l, ",") {
+				continue
+			}
+			keep = append(keep, l)
+		}
+		out = append(out, strings.Join(keep, "\n"))
+	}
+	// unknown callables
+	out = append(out, callRe.ReplaceAllString(src, "${1}call ZZ"))
+	// unknown fields in struct literals and projections
+	out = append(out, strings.ReplaceAll(strings.ReplaceAll(src, "f0: ", "zq0: "), ".f1", ".zq1"))
+	// type mismatches at many bindings
+	out = append(out, strings.ReplaceAll(strings.ReplaceAll(src, "in  int ", "in  string[] "), "in  string ", "in  map<int> "))
+	// retained parameters that do not exist / are repeated
+	out = append(out, strings.ReplaceAll(src, ") retain (\n", ") retain (\n    nope1,\n    nope0,\n"))
 	return out
 }
+
+var callRe = regexp.MustCompile(`(?m)^(\s*(?:map )?)call `)
 
 // treeSignature lists a pipestance directory with uniquifiers removed, plus the
 // contents of the files that record fork identity and results.
